@@ -632,7 +632,33 @@ def rule_bits(crate, prop, tier):
                     walk2(v_, ev["b"], seen2)
         for (b_, i_), t_ in an.stmt_terms.items():
             walk2(t_, b_, seen2)
-        if hits:
+        # a loop (or an iterator / closure) over the words elsewhere in the function covers what lies between the masked ends
+        def reads_blocks(t):
+            if isinstance(t, tuple) and t:
+                if t[0] in ("mem", "at", "addr") and isinstance(t[1], str):
+                    ri_ = an.region_info.get(t[1].split("#")[0])
+                    if ri_ and ri_.get("chain") and ri_["chain"][-1] == (AM, "blocks"):
+                        return True
+                return any(reads_blocks(x) for x in t if isinstance(x, tuple))
+            return False
+        word_loop = False
+        for ev in an.events:
+            inl = an.cfg.loop_of(ev["b"]) is not None
+            iterish = ev["k"] == "call" and ev["key"] and (ev["key"].startswith("slice::iter") or ev["key"].endswith("::chunks")
+                                                            or "::index::Index::index" in ev["key"] and ev["fn"] and
+                                                            len(ev["fn"].get("targs", [])) >= 2 and ev["fn"]["targs"][1].get("k") == "adt")
+            if not (inl or iterish):
+                continue
+            for k_ in ("args", "val", "discr", "res"):
+                v_ = ev.get(k_)
+                vs_ = v_ if isinstance(v_, list) else [v_] if isinstance(v_, tuple) else []
+                if any(reads_blocks(x) for x in vs_):
+                    word_loop = True
+        for cp in crate.prog.children.get(p, []):
+            can_ = crate.an(cp)
+            if _touches(can_, ("blocks",)):
+                word_loop = True
+        if hits and not word_loop:
             nr += 1
             o.check(False, crate.prog.pretty[p], "bounded-range-read", "words of the bit matrix are masked with multi-bit (range) masks outside "
                     "any loop over the words: only a bounded number of words is examined, but a row spans more than that for large orders",
@@ -806,3 +832,20 @@ def rule_encaps(crate, prop, tier):
     muts = {p for p, T in repr_mut_fns(crate)}
     o.check(len(muts) >= 11, "crate", "mutator-count", "fewer mutators than expected")
     return o.report(floors={"representation structs": (o.instances, 5)})
+
+
+def _touches(an, names):
+    """some term of the body names a region whose last field is one of `names`"""
+    def walk(t):
+        if isinstance(t, tuple) and t:
+            if t[0] in ("mem", "at", "addr") and isinstance(t[1], str) and any(("." + n) in t[1] for n in names):
+                return True
+            return any(walk(x) for x in t if isinstance(x, tuple))
+        return False
+    for ev in an.events:
+        for k in ("args", "val", "discr", "res"):
+            v = ev.get(k)
+            vs = v if isinstance(v, list) else [v] if isinstance(v, tuple) else []
+            if any(walk(x) for x in vs):
+                return True
+    return False
